@@ -4,17 +4,65 @@ code points Python's str.split()/str.strip() treat as white space (handle_pi).""
 from harness.extract_tables import HEADER, chars
 
 
+def lower_runs(pairs):
+    """[(cp, lower cp)] sorted -> [(first, last, step, target of first)] with constant offset inside a run"""
+    runs = []
+    for cp, t in pairs:
+        if runs:
+            f, l, st, tf = runs[-1]
+            if t - cp == tf - f and (st == 0 and cp - l in (1, 2) or st != 0 and cp - l == st):
+                runs[-1] = (f, cp, cp - l, tf)
+                continue
+        runs.append((cp, cp, 0, t))
+    return [(f, l, st or 1, tf) for f, l, st, tf in runs]
+
+
 def gen_parse():
     from genshi import input as ginput
     import sys
     ents = sorted(ginput.entities.name2codepoint.items())
     rows = ',\n  '.join('(%s, %d)' % (chars(n), cp) for n, cp in ents)
     space = [cp for cp in range(sys.maxunicode + 1) if not (0xd800 <= cp <= 0xdfff) and chr(cp).isspace()]
+    # Python's str.lower (HTMLParser.handle_endtag compares `open_tag.lower() == tag.lower()`): the per-character
+    # mapping, and the two character classes of its only context rule (a capital sigma becomes a final sigma when
+    # a cased letter precedes it and none follows, case-ignorable characters skipped), read off str.lower itself
+    low, ign, cased = [], [], []
+    for cp in range(sys.maxunicode + 1):
+        if 0xd800 <= cp <= 0xdfff:
+            continue
+        c = chr(cp)
+        after_cased = ('a' + c + '\u03a3').lower()[-1] == '\u03c2'      # c is case-ignorable or cased
+        after_start = (c + '\u03a3').lower()[-1] == '\u03c2'            # c is cased and not case-ignorable
+        if after_cased and not after_start:
+            ign.append(cp)
+        if after_start:
+            cased.append(cp)
+        l = c.lower()
+        if l != c:
+            low.append((cp, [ord(x) for x in l]))
+
+    def ranges(cps):
+        out = []
+        for x in cps:
+            if out and out[-1][1] == x - 1:
+                out[-1][1] = x
+            else:
+                out.append([x, x])
+        return ', '.join('(%d, %d)' % (a, b) for a, b in out)
     parts = [HEADER, 'namespace Genshi.Gen.Parse\n',
              '/-- from genshi/input.py: `entities.name2codepoint` (six.moves.html_entities) -/\n'
              'def entities : List (List Char × Nat) := [\n  %s]\n' % rows,
              '/-- code points c of the running interpreter with `chr(c).isspace()` (what `str.split(None)` and `str.strip()` remove) -/\n'
              'def pySpace : List Nat := [%s]\n' % ', '.join(str(c) for c in space),
+             '/-- the code points c of the running interpreter with `chr(c).lower() != chr(c)` and a one-character result, as runs\n'
+             '    `(first, last, step, target of first)`: c = first + k*step <= last lowers to target + k*step -/\n'
+             'def lowerRuns : List (Nat × Nat × Nat × Nat) := [\n  %s]\n' % ',\n  '.join('(%d, %d, %d, %d)' % r for r in lower_runs([(cp, l[0]) for cp, l in low if len(l) == 1])),
+             '/-- … and those with a longer result, with the code points of `chr(c).lower()` -/\n'
+             'def lowerMulti : List (Nat × List Nat) := [%s]\n' % ', '.join('(%d, [%s])' % (cp, ', '.join(map(str, l))) for cp, l in low if len(l) != 1),
+             '/-- inclusive ranges of the code points `str.lower` skips when it looks for the cased letter around a capital sigma (Case_Ignorable) -/\n'
+             'def caseIgnorable : List (Nat × Nat) := [%s]\n' % ranges(ign),
+             '/-- inclusive ranges of the code points that are cased and not case-ignorable for `str.lower` -/\n'
+             'def casedNotIgnorable : List (Nat × Nat) := [%s]\n' % ranges(cased),
              'end Genshi.Gen.Parse\n']
     return 'Parse.lean', '\n'.join(parts)
 
